@@ -1,6 +1,8 @@
 import Dmn.Model.Sexp
 import Dmn.Model.Concurrency
+import Dmn.Model.ConcPanic
 import Dmn.Gen.SharedState
+import Dmn.Gen.ServerState
 
 /-!
 Driver handler for C20.
@@ -13,6 +15,11 @@ Driver handler for C20.
   `<program>` = `(<act>…)` with `<act>` = `(r l)` acquire read, `(u l)` release read,
   `(w l)` acquire write, `(v l)` release write, `(c k)` compute `s := s * 31 + k + registry`,
   `(m k)` mutate `registry := registry + k`.
+* `(c20 runp (<program>…) (<thread index>…))` → the semantics with panics (`Dmn.ConcP`): `<act>` as above plus
+  `(p)` = the call panics here: `((finished b) (blocked n) (results (st ending)…) (alone (st ending)…)
+  (readers n) (poisoned n) (held n))` — `readers` = the sum of the reader counts of the locks 0..15, `held` = the
+  number of read guards held by all threads, `poisoned` = the number of poisoned or write-held locks.
+* the table answer also has `(server b)`: the checks of the service's table (`Dmn/Gen/ServerState.lean`).
 -/
 
 namespace Dmn.Driver.C20
@@ -39,13 +46,41 @@ def countBlocked (w : World Nat Nat) : Nat :=
 
 def b (x : Bool) : String := if x then "true" else "false"
 
+def actPOf : Sexp → Option (ConcP.Act Nat Nat)
+  | .list [.atom "r", l] => (Sexp.nat? l).map .acqRead
+  | .list [.atom "u", l] => (Sexp.nat? l).map .relRead
+  | .list [.atom "w", l] => (Sexp.nat? l).map .acqWrite
+  | .list [.atom "v", l] => (Sexp.nat? l).map .relWrite
+  | .list [.atom "c", k] => (Sexp.nat? k).map (fun k => .compute (fun r s => (s * 31 + k + r) % 1000000007))
+  | .list [.atom "p"] => some .panic
+  | _ => none
+
+def progPOf : Sexp → Option (List (ConcP.Act Nat Nat))
+  | .list as => as.mapM actPOf
+  | _ => none
+
+def endName : ConcP.End → String
+  | .running => "returned"
+  | .panicked => "panicked"
+  | .lockError => "lock-error"
+
+def serverOk : Bool :=
+  !Dmn.Gen.ServerState.evalEntries.isEmpty &&
+  containsAll Dmn.Gen.ServerState.reachesEval Dmn.Gen.ServerState.evalEntries &&
+  closedBackward Dmn.Gen.ServerState.reachesEval Dmn.Gen.ServerState.edges &&
+  evalPhaseReadOnly Dmn.Gen.ServerState.reachesEval Dmn.Gen.ServerState.locations Dmn.Gen.ServerState.ops &&
+  writesOutside Dmn.Gen.ServerState.reachesEval Dmn.Gen.ServerState.ops &&
+  oneAcquisitionPerFn Dmn.Gen.ServerState.ops &&
+  Dmn.Gen.ServerState.guardedOps.all id &&
+  noUnsynchronisedGlobals Dmn.Gen.ServerState.locations
+
 def handle (args : List Sexp) : String :=
   match args with
   | [.atom "table"] =>
     let evalWrites := ops.filter (fun o => reach evalReachable o.fn && !(o.actKind locations).readOnly)
     let names := " ".intercalate (evalWrites.map (fun o => (fnName o.fn).replace " " "_"))
     let nReach := ((List.range fnCount).filter (reach evalReachable)).length
-    s!"((functions {fnCount}) (closures {closureRoots.length}) (edges {edges.length}) (evalReachable {nReach}) (lockOps {ops.length}) (ffiCalls {ffiCalls.length}) (locations {locations.length}) (readOnly {b (evalPhaseReadOnly evalReachable locations ops)}) (closed {b (reach evalReachable evalEntry && containsAll evalReachable closureRoots && closed evalReachable edges)}) (globals {b (noUnsynchronisedGlobals locations)}) (ffi {b (ffiPrivate evalReachable ffiCalls && defaultContextUses.all (·.1))}) (sendSync {b (!evaluatorTypes.isEmpty && evaluatorTypes.all (·.2.2))}) (evalWrites {names}))"
+    s!"((functions {fnCount}) (closures {closureRoots.length}) (edges {edges.length}) (evalReachable {nReach}) (lockOps {ops.length}) (ffiCalls {ffiCalls.length}) (locations {locations.length}) (readOnly {b (evalPhaseReadOnly evalReachable locations ops)}) (closed {b (reach evalReachable evalEntry && containsAll evalReachable closureRoots && closed evalReachable edges)}) (globals {b (noUnsynchronisedGlobals locations)}) (ffi {b (ffiPrivate evalReachable ffiCalls && defaultContextUses.all (·.1))}) (sendSync {b (!evaluatorTypes.isEmpty && evaluatorTypes.all (·.2.2))}) (server {b serverOk}) (serverLockOps {Dmn.Gen.ServerState.ops.length}) (evalWrites {names}))"
   | [.atom "run", .list progs, .list sched] =>
     match progs.mapM progOf, sched.mapM Sexp.nat? with
     | some progs, some sched =>
@@ -55,6 +90,23 @@ def handle (args : List Sexp) : String :=
       let results := " ".intercalate (w.threads.map (fun t => toString t.st))
       let alones := " ".intercalate (progs.map (fun p => toString (alone 5 p 1)))
       s!"((finished {b finished}) (blocked {countBlocked w}) (results {results}) (alone {alones}))"
+    | _, _ => "(error bad-run)"
+  | [.atom "runp", .list progs, .list sched] =>
+    match progs.mapM progPOf, sched.mapM Sexp.nat? with
+    | some progs, some sched =>
+      let w0 : ConcP.World Nat Nat := ConcP.initWorld 5 (progs.map (fun p => (p, 1)))
+      let w := ConcP.run w0 sched
+      let finished := w.threads.all (fun t => t.todo.isEmpty)
+      let blocked := ((List.range w.threads.length).filter (fun i =>
+        match ConcP.stepThread w i with
+        | .blocked => true
+        | _ => false)).length
+      let results := " ".intercalate (w.threads.map (fun t => s!"({t.st} {endName t.ending})"))
+      let alones := " ".intercalate (progs.map (fun p => let r := ConcP.alone 5 p 1; s!"({r.1} {endName r.2})"))
+      let readers := ((List.range 16).map (fun l => (w.locks l).readers)).sum
+      let poisoned := ((List.range 16).filter (fun l => (w.locks l).poisoned || (w.locks l).writer)).length
+      let held := ((List.range 16).map (fun l => ConcP.heldReads w.threads l)).sum
+      s!"((finished {b finished}) (blocked {blocked}) (results {results}) (alone {alones}) (readers {readers}) (poisoned {poisoned}) (held {held}))"
     | _, _ => "(error bad-run)"
   | _ => "(error bad-request)"
 
